@@ -6,6 +6,19 @@
 #include "coloquinte.hpp"
 
 namespace coloquinte {
+#ifdef COLOQUINTE_VERIF
+#define COLOQUINTE_VERIF_HAS_H1 1
+class NetModel;
+namespace verif {
+/**
+ * @brief Verification hook H1: when non-null, called at the start of
+ * NetModel::solveWithPenalty with the model being solved. Lets a test harness
+ * delay one of the two concurrent solves of GlobalPlacer::runLB.
+ */
+extern void (*onSolveStart)(const NetModel *);
+}  // namespace verif
+#endif
+
 /**
  * Representation of the nets as 1D HPWL for global placement algorithms
  */
